@@ -29,7 +29,7 @@ fn has_principal_error(soft: &serde_json::Value) -> bool {
 
 pub fn run(rep: &mut Report, thorough: bool) {
     crate::util::install_quiet_panic_hook();
-    rep.rule = "targets of 1..24 sentinel threads on zero-filled stacks, each a {pointer holder at the first / last / a random aligned slot above sp with value in {start-1,start,mid,end-1,end,end+1}, misaligned holder, holder below sp, thread spinning inside the principal mapping, thread whose instruction pointer is the first byte after it, nothing}; with and without stack sanitization; principal address in {anonymous r-x mapping, anonymous rw- mapping, file-backed ELF group, hole, inaccessible reservation directly behind the ELF group, 0, MAX}; with and without crash context. Oracle: included <=> ip in [start,end) or an aligned word at/above sp in the checker-read stack in [start,end); records and contexts always present; soft error when required. distinct = hash(holders, principal choice, ctx); non-trivial = Ok dump with >= 1 sentinel judged".into();
+    rep.rule = "targets of 1..24 sentinel threads on zero-filled stacks, each a {pointer holder at the first / last / a random aligned slot above sp with value in {start-1,start,mid,end-1,end,end+1}, misaligned holder, holder below sp, thread spinning inside the principal mapping, thread whose instruction pointer is the first byte after it, nothing}; with and without stack sanitization; principal address in {anonymous r-x mapping, anonymous rw- mapping, either piece of a library folded around an inaccessible page, file-backed ELF group, hole, inaccessible reservation directly behind the ELF group, 0, MAX}; with and without crash context. Oracle: included <=> ip in [start,end) or an aligned word at/above sp in the checker-read stack in [start,end); records and contexts always present; soft error when required. distinct = hash(holders, principal choice, ctx); non-trivial = Ok dump with >= 1 sentinel judged".into();
     let mut rng = Rng::new(rep.seed.wrapping_mul(202_021));
     let ntargets = if thorough { 4000 } else { 14 };
     for ti in 0..ntargets {
@@ -47,6 +47,18 @@ pub fn run(rep: &mut Report, thorough: bool) {
         // a principal candidate WITHOUT execute permission (heap-like data a crash handler may care about)
         let nx = b.anon(2, 5, 6, Fill::Zero);
         let (nxa, nxl) = (b.spec.regions[nx].addr, b.spec.regions[nx].len);
+        // a library whose two pieces have an inaccessible anonymous page between them and no
+        // executable piece in front of it: r--p file / ---p anon / r-xp file. The writer folds the
+        // three lines into one mapping; that whole mapping is then the principal one.
+        let (fold_a, fold_len) = {
+            let path = format!("{dir}/libfolded.so");
+            std::fs::write(&path, vec![0x90u8; 3 * PAGE as usize]).expect("write");
+            let a = b.alloc(3, 6);
+            b.add_region(Region { addr: a, len: PAGE, prot: 4, kind: RegionKind::File { path: path.clone(), offset: 0 }, fill: Fill::Keep, pokes: Vec::new(), unlink_after: false });
+            b.add_region(Region { addr: a + PAGE, len: PAGE, prot: 0, kind: RegionKind::Anon, fill: Fill::Keep, pokes: Vec::new(), unlink_after: false });
+            b.add_region(Region { addr: a + 2 * PAGE, len: PAGE, prot: 5, kind: RegionKind::File { path, offset: 2 * PAGE }, fill: Fill::Keep, pokes: Vec::new(), unlink_after: false });
+            (a, 3 * PAGE)
+        };
         let mut files = Vec::new();
         let espec = ElfSpec::random(&mut rng);
         scen::add_elf_file(&mut b, &mut rng, &dir, "libprincipal.so", espec, false, &mut files);
@@ -58,7 +70,7 @@ pub fn run(rep: &mut Report, thorough: bool) {
         let resv = b.anon(2, 0, 0, Fill::Keep);
         let resv_addr = b.spec.regions[resv].addr;
         let hole = rxa - 2 * PAGE;
-        let pchoice = if ti < 5 { ti as u64 } else if ti == 5 { 6 } else if ti == 6 || ti == 7 { 7 } else { rng.below(8) };
+        let pchoice = if ti < 5 { ti as u64 } else if ti == 5 { 6 } else if ti == 6 || ti == 7 { 7 } else if ti == 8 || ti == 9 { 8 } else { rng.below(9) };
         let (principal, range): (Option<u64>, Option<(u64, u64)>) = match pchoice {
             0 | 5 => (Some(rxa + rng.below(rxl)), Some((rxa, rxa + rxl))),
             1 => (Some(fa + rng.below(fl)), Some((fa, fa + fl))),
@@ -66,10 +78,12 @@ pub fn run(rep: &mut Report, thorough: bool) {
             3 => (Some(0), None),
             6 => (Some(resv_addr + rng.below(2 * PAGE)), None),
             7 => (Some(nxa + rng.below(nxl)), Some((nxa, nxa + nxl))),
+            // address in the LAST piece (ti even) or the first piece (ti odd) of the folded library
+            8 => (Some(if ti % 2 == 0 { fold_a + 2 * PAGE + rng.below(PAGE) } else { fold_a + rng.below(PAGE) }), Some((fold_a, fold_a + fold_len))),
             _ => (Some(u64::MAX), None),
         };
         let (lo, hi) = range.unwrap_or(if pchoice == 6 { (fa, fa + fl) } else { (rxa, rxa + rxl) }); // pointers still aim at the r-x region when there is no mapping
-        let n = if ti % 5 == 4 { 24 } else { rng.range(1, 8) as usize };
+        let n = if ti % 5 == 4 || (5..10).contains(&ti) { 24 } else { rng.range(1, 8) as usize };
         let mut holders = Vec::new();
         for k in 0..n {
             let pages = rng.range(1, 3);
